@@ -178,6 +178,7 @@ def run(ctx):
     chk.not_decided = ['correctness of the procfs/utmp/hosts parsers, name-service lookups, values in exotic process '
                        'states other than the parent-pid classes of W1']
     prog = ctx.program(facts.AS_CONFIGURED, 'lib')
+    PROG12[0] = prog
     cg = ctx.callgraph(facts.AS_CONFIGURED, 'lib')
     names = common.table_names(prog, 'snoopy_datasourceregistry_names')
     n_checked = 0
@@ -323,6 +324,9 @@ def fmt_argspec(argspec):
     return '(' + ', '.join('#%d=%s' % (i, v) for i, v in sorted(argspec.items())) + ')'
 
 
+PROG12 = [None]
+
+
 def args_match(f, c, argspec, ds):
     for i, want in argspec.items():
         a = arg(c, i)
@@ -341,6 +345,10 @@ def args_match(f, c, argspec, ds):
                     for d in f.local_decls():
                         if d['id'] == b['id'] and d.get('init', -1) != -1:
                             rows = [strip(x).get('s') for x in strip(f.nodes[d['init']]).walk() if strip(x) is not None and strip(x).k == 'StringLiteral']
+                    if not rows and (b.get('fileScope') or b.get('staticStorage')):
+                        g_ = PROG12[0].global_var(b['name']) if PROG12[0] is not None else None
+                        if g_ is not None and g_.init is not None:
+                            rows = [x.get('s') for x in g_.init.walk() if x.k == 'StringLiteral']
                 if want not in rows:
                     return False
             elif not (s.k == 'StringLiteral' and s.get('s') == want):
